@@ -45,6 +45,7 @@ import (
 	stats "github.com/openGemini/openGemini/lib/statisticsPusher/statistics"
 	"github.com/openGemini/openGemini/lib/util"
 	"github.com/openGemini/openGemini/lib/util/lifted/influx/influxql"
+	"github.com/openGemini/openGemini/lib/verifhook"
 	"github.com/savsgio/dictpool"
 	"go.uber.org/zap"
 )
@@ -507,6 +508,7 @@ func (m *MmsTables) GetBothFilesRef(measurement string, hasTimeFilter bool, tr u
 	if unorderOk {
 		unorderFiles = m.getFiles(unorder, hasTimeFilter, tr)
 	}
+	verifhook.Yield("GetBothFilesRef.beforeFlag")
 	if flushed != nil {
 		if *flushed {
 			return orderFiles, unorderFiles, true
@@ -883,6 +885,7 @@ func (m *MmsTables) ReplaceFiles(name string, oldFiles, newFiles []TSSPFile, isO
 		return ErrCompStopped
 	}
 
+	verifhook.Yield("ReplaceFiles.beforeLock")
 	fs.lock.Lock()
 	defer fs.lock.Unlock()
 	// remove old files
